@@ -603,6 +603,10 @@ def oracle_C06(case, obs):
             else:
                 if st["exc"] is None and any(v > mv for _, _, v in tr):
                     bad.append(f"no-split: call {i}: step above max_volume accepted with auto_split disabled")
+        if k in ("aspirate_well", "dispense_well"):
+            v1 = num(op["volume"])
+            if v1 is not None and v1 > mv and st["exc"] is None:
+                bad.append(f"no-split: call {i} ({k}): a single step of {v1} above max_volume {mv} was accepted: {st['recs']}")
         if k in ("reagent", "distribute") and st["exc"] is None:
             for r in st["recs"]:
                 if r.startswith("R;"):
@@ -1078,6 +1082,9 @@ def oracle_C09(case, obs):
             for f in ("src_start", "src_end", "dst_start", "dst_end"):
                 if isinstance(op[f], dict) or op[f] < 0:
                     reasons.append(f)
+            for f in ("diti_reuse", "multi_disp"):
+                if op.get(f, 1) < 0:
+                    reasons.append(f)  # not a number a worklist line can carry
             ex = op.get("exclude") or []
             if not reasons and any(not (op["dst_start"] <= x <= op["dst_end"]) for x in ex):
                 reasons.append("excluded well")
@@ -1114,7 +1121,8 @@ def oracle_C09(case, obs):
             for f, w in want.items():
                 if d.get(f) != w:
                     bad.append(f"field: call {i} (reagent_distribution): field {f} decodes to {d.get(f)!r}, argument was {w!r}")
-            if Fraction(d["volume"]) != v:
+            # the volume is written in Python's shortest round-trip notation: read back as binary64 it is the argument
+            if Fraction(d["volume"]) != v and float(d["volume"]) != float(v):
                 bad.append(f"field: call {i} (reagent_distribution): volume {d['volume']} for argument {v}")
         elif k == "comment":
             t = op["text"]
@@ -1151,7 +1159,10 @@ def oracle_C09(case, obs):
                 bad.append(f"field: call {i}: commit gave {recs}")
         elif k == "set_diti":
             allowed = not before or before[-1].split(";")[0] == "B"
-            if allowed:
+            if op["i"] < 0:
+                if st["exc"] is None:
+                    bad.append(f"reject: call {i}: negative DiTi index accepted: {recs}")
+            elif allowed:
                 if recs != [f"S;{op['i']}"]:
                     bad.append(f"field: call {i}: set_diti gave {recs} / {st['exc']}")
             elif st["exc"] is None:
@@ -1370,6 +1381,13 @@ def oracle_C08(case, obs):
     L = case["labware"]
     for i, (op, st) in enumerate(zip(case["ops"], obs["steps"])):
         k = op["op"]
+        if k in ("aspirate", "dispense", "transfer", "distribute") and not lw_args_ok(case, op):
+            # an operation naming a well ID that does not exist in the labware raises without emitting a record
+            if st["exc"] is None:
+                bad.append(f"nonexistent: call {i} ({k}) names a well that does not exist but was accepted")
+            elif st["recs"]:
+                bad.append(f"nonexistent: call {i} ({k}) names a well that does not exist, raised {st['exc']} but appended {st['recs'][:3]}")
+            continue
         if k in ("aspirate", "dispense") and lw_args_ok(case, op):
             ws = flatF(op["wells"])
             vs = [num(v) for v in bcast(flatF(op["vols"]), len(ws))]
@@ -1405,5 +1423,5 @@ def oracle_C08(case, obs):
 
 ORACLES = {"C08": oracle_C08, "C01": oracle_C01, "C02": oracle_C02, "C03": oracle_C03, "C04": oracle_C04, "C05": oracle_C05,
            "C06": oracle_C06, "C07": oracle_C07, "C09": oracle_C09, "C10": oracle_C10, "C11": oracle_C11}
-ORACLES_PARAMS = {"C09": oracle_C09, "C10": oracle_C10}
+ORACLES_PARAMS = {"C09": oracle_C09, "C10": oracle_C10, "C06": oracle_C06}
 ORACLES_EVOCMD = {"C13": oracle_C13, "C10": oracle_C10, "C02": oracle_C02, "C03": oracle_C03}
